@@ -36,6 +36,10 @@ def gen_case(rng, ver, tier, force=None):
         spec["in_shapes"] = [rng.choice(["v", "v", "allowed", "mask"]) for _ in range(k)]
         spec["out_shapes"] = [rng.choice(["v", "v", "allowed"]) for _ in range(m)]
         spec["dialog_action"] = bool(mode == "dialog" and rng.random() < 0.3)
+        if k >= 2 and rng.random() < 0.15:
+            spec["dup_in"] = [rng.randrange(k - 1)]  # an earlier rail is listed once more after the last one
+        if m >= 2 and rng.random() < 0.15:
+            spec["dup_out"] = [rng.randrange(m - 1)]
     V = []
     kinds = []
     for t in range(turns):
